@@ -479,6 +479,7 @@ def prop_C12(ctx, tier):
     S.check_registry_tables(run, ctx)
     from . import planted as PL
     PL.expect_fires(run, 'C12-S1', 'invalidate_by_event reads the tag table', PL.plant_event_lookup_reads_tag_table(ctx), S.check_registry_tables)
+    S.check_registry_counts(run, ctx, 'C12-S4')
     S.check_registry_in_place(run, ctx, 'C12-S3', ('cachelito_core::invalidation::InvalidationRegistry::',), 15)
     n = W.check_registration(run, ctx, rules=('C12',))
     run.require('C12-W1', 'global/async fixtures', n, 200)
@@ -498,6 +499,7 @@ def prop_C13(ctx, tier):
     S.check_registry_routing(run, ctx)
     S.check_order_preserving(run, ctx, 'C13-W3')
     S.check_positional_removals(run, ctx, 'C13-W4')
+    S.check_registry_counts(run, ctx, 'C13-S2')
     n = W.check_callbacks(run, ctx, rules=('C13',))
     from . import planted as PL
     PL.expect_fires(run, 'C13-W1', 'a conditional callback keeps the queue slot of a removed key', PL.plant_check_callback_keeps_queue_slot(ctx), lambda r, c: W.check_callbacks(r, c, rules=('C13',)))
